@@ -171,19 +171,32 @@ func runRestStep(sv *restServer, s restStep) (labels []string, nt bool, err erro
 	switch s.Ep {
 	case "totp-gen", "chain-totp":
 		d, a, p, _ := s.eff()
+		before := time.Now().Unix()
 		r := post("/totp/generate", s.body(nil))
 		if r.Err != nil || r.Status != 200 || r.JSON == nil {
 			return fail("POST /totp/generate %s -> %s", s.body(nil), r.brief())
 		}
 		ts := s.TS
+		// The echoed timestamp is not something the statement demands; but if the answer names an instant, it must be the
+		// one the code is for (the request's, or the current time when the request has none).
+		n, echoed := r.JSON["timestamp"].(json.Number)
 		if !s.HasTS || s.TS <= 0 {
-			n, _ := r.JSON["timestamp"].(json.Number)
-			ts, _ = n.Int64()
-			if d := time.Now().Unix() - ts; d < -5 || d > 60 {
-				return fail("POST /totp/generate without timestamp echoed timestamp %d, not the current time", ts)
-			}
 			labels = append(labels, "server-time")
-		} else if n, _ := r.JSON["timestamp"].(json.Number); n.String() != fmt.Sprint(ts) {
+			if echoed {
+				ts, _ = n.Int64()
+				if d := time.Now().Unix() - ts; d < -5 || d > 60 {
+					return fail("POST /totp/generate without timestamp echoed timestamp %d, not the current time", ts)
+				}
+			} else {
+				// no instant in the answer: the code must be the RFC value for some second while the request was in flight
+				ts = before
+				for x := before; x <= time.Now().Unix(); x++ {
+					if ref.MustHOTP(s.Key, uint64(x)/p, d, a) == r.str("code") {
+						ts = x
+					}
+				}
+			}
+		} else if echoed && n.String() != fmt.Sprint(ts) {
 			return fail("POST /totp/generate %s echoed timestamp %s", s.body(nil), n)
 		}
 		want := ref.MustHOTP(s.Key, uint64(ts)/p, d, a)
@@ -215,7 +228,7 @@ func runRestStep(sv *restServer, s restStep) (labels []string, nt bool, err erro
 		if r.str("code") != want {
 			return fail("POST /hotp/generate %s -> code %q; RFC value for (counter=%d, digits=%d, hash=%d) is %q", s.body(nil), r.str("code"), ctr, d, a, want)
 		}
-		if n, okk := r.JSON["counter"].(json.Number); (okk && n.String() != fmt.Sprint(ctr)) || (!okk && ctr != 0) {
+		if n, okk := r.JSON["counter"].(json.Number); okk && n.String() != fmt.Sprint(ctr) { // an echoed counter must be the request's
 			return fail("POST /hotp/generate %s echoed counter %v", s.body(nil), r.JSON["counter"])
 		}
 		if s.Ep == "chain-hotp" {
@@ -242,12 +255,14 @@ func runRestStep(sv *restServer, s restStep) (labels []string, nt bool, err erro
 		code := mutate(ref.MustHOTP(s.Key, centre+uint64(int64(s.Dist)), d, a), s.Mut)
 		body := s.body(map[string]any{"code": code})
 		r := post(path, body)
-		if r.Err != nil || r.Status != 200 || r.JSON == nil {
-			return fail("POST %s %s -> %s", path, body, r.brief())
-		}
 		want := false
 		if skew <= 10 {
 			_, want = windowSet(s.Key, centre, skew, d, a)[code]
+		}
+		// The verdict is what the statement pins down: an accepted code needs 200 with valid=true; a rejection may be
+		// 200 with valid=false (what the tree does) or a complete failure answer (status >= 400) — not a lost request.
+		if r.Err != nil || (r.Status == 200 && r.JSON == nil) || (r.Status != 200 && (want || r.Status < 400)) {
+			return fail("POST %s %s -> %s", path, body, r.brief())
 		}
 		// the library called directly with the same parameters
 		par := &otp.Param{Digits: otp.Digits(d), Algorithm: otp.Algorithm(a), Skew: uint(skew)}
@@ -318,18 +333,21 @@ func runRestStep(sv *restServer, s restStep) (labels []string, nt bool, err erro
 			}
 			body, _, _ = s.ocraBody(&code)
 			r := post("/ocra/validate", body)
-			if r.Err != nil || r.JSON == nil {
+			if r.Err != nil || (r.Status == 200 && r.JSON == nil) {
 				return fail("POST /ocra/validate %s -> %s", body, r.brief())
 			}
+			got, _ := r.JSON["valid"].(bool)
+			got = got && r.Status == 200
+			// a rejection is 200 with valid=false or a complete failure answer (status >= 400); acceptance is 200 with valid=true
+			rejected := (r.Status == 200 && !got) || r.Status >= 400
 			if !usable {
-				if r.Status < 400 {
+				if !rejected {
 					return fail("POST /ocra/validate with an unusable suite %s -> %s", body, r.brief())
 				}
 				return append(labels, "unusable-suite"), true, nil
 			}
-			got, _ := r.JSON["valid"].(bool)
 			wantValid := expectOK && s.Mut == 0
-			if r.Status != 200 || got != wantValid {
+			if (wantValid && !got) || (!wantValid && !rejected) {
 				return fail("POST /ocra/validate %s -> %s; want valid=%v (RFC value %q)", body, r.brief(), wantValid, want)
 			}
 			return append(labels, fmt.Sprintf("valid=%v", got)), true, nil
@@ -347,7 +365,7 @@ func runRestStep(sv *restServer, s restStep) (labels []string, nt bool, err erro
 		if r.Status != 200 || r.str("code") != want {
 			return fail("POST /ocra/generate %s -> %s; RFC 6287 value is %q", body, r.brief(), want)
 		}
-		if r.str("suite") != cfg.Raw {
+		if _, echoed := r.JSON["suite"]; echoed && r.str("suite") != cfg.Raw { // an echoed suite name must be the request's
 			return fail("POST /ocra/generate %s reports suite %q, want %q", body, r.str("suite"), cfg.Raw)
 		}
 		if s.Ep == "chain-ocra" {
@@ -397,7 +415,8 @@ func runRestStep(sv *restServer, s restStep) (labels []string, nt bool, err erro
 		if fmt.Sprint(cfgj["hash_function"]) != []string{"SHA1", "SHA256", "SHA512"}[rd.Cfg.Hash] {
 			return fail("POST /ocra/suite %s: hash_function %v, the name says %d", body, cfgj["hash_function"], rd.Cfg.Hash)
 		}
-		if d := sameCfg(got, rd); d != "" || r.str("raw") != s.RawName {
+		_, rawEchoed := r.JSON["raw"]
+		if d := sameCfg(got, rd); d != "" || (rawEchoed && r.str("raw") != s.RawName) {
 			return fail("POST /ocra/suite %s -> %s: configuration has %s", body, r.brief(), d)
 		}
 		return labels, true, nil
@@ -464,7 +483,7 @@ func runRestStep(sv *restServer, s restStep) (labels []string, nt bool, err erro
 			if !okk || len(raw) != []int{20, 32, 64}[a] || ref.B32(raw) != sec {
 				return fail("GET %s -> secret %q is not unpadded upper-case base32 of %d bytes", path, sec, []int{20, 32, 64}[a])
 			}
-			if r.str("algorithm") != []string{"SHA1", "SHA256", "SHA512"}[a] {
+			if _, echoed := r.JSON["algorithm"]; echoed && r.str("algorithm") != []string{"SHA1", "SHA256", "SHA512"}[a] {
 				return fail("GET %s echoes algorithm %q, want %s", path, r.str("algorithm"), []string{"SHA1", "SHA256", "SHA512"}[a])
 			}
 		}
